@@ -19,11 +19,12 @@ pub struct Which {
     pub c11: bool,
     pub c12: bool,
     pub c14: bool,
+    pub c15: bool,
 }
 
 impl Which {
     pub fn all() -> Which {
-        Which { c04: true, c05: true, c07: true, c08: true, c09: true, c10: true, c11: true, c12: true, c14: true }
+        Which { c04: true, c05: true, c07: true, c08: true, c09: true, c10: true, c11: true, c12: true, c14: true, c15: true }
     }
     pub fn for_prop(p: &str) -> Which {
         let mut w = Which::default();
@@ -37,6 +38,7 @@ impl Which {
             "C11" => w.c11 = true,
             "C12" => w.c12 = true,
             "C14" => w.c14 = true,
+            "C15" => w.c15 = true,
             "C17" | "C20" | "ALL" => w = Which::all(),
             _ => {},
         }
@@ -227,6 +229,7 @@ pub fn after_step(b: &Built, spec: &CaseSpec, st: &mut State, w: &Which) {
         Topo::Combine(n) if w.c10 => c10_step(b, g, st, *n, from, to),
         Topo::Flatten(_) if w.c11 => c11_step(b, g, st, from, to),
         Topo::Share(_) if w.c12 => c12_step(b, g, st, from, to),
+        Topo::FromIter(_) if w.c15 => c15_step(b, g, st, from, to),
         _ => {},
     }
     if w.c14 && spec.credit_env {
@@ -1392,6 +1395,98 @@ fn c14_step(b: &Built, g: &mut Inner, st: &mut State, at_end: bool) {
                 if at_end { " (end of run)" } else { "" }
             );
             report(g, st, &["C14"], "pull-unanswered-at-quiescence", &op, se, -1, d);
+        }
+    }
+}
+
+// ---------------------------------------------------------------------------------------------
+// C15 from_iter: lazy, ordered, one item per Pull, never re-entrant
+// ---------------------------------------------------------------------------------------------
+
+fn c15_step(b: &Built, g: &mut Inner, st: &mut State, from: usize, to: usize) {
+    let op = b.op.clone();
+    for pe in probe_edges(g) {
+        let owner = g.edges[pe].owner;
+        let ie = match (0..g.edges.len()).find(|e| matches!(g.edges[*e].role, Role::Iter(..)) && g.edges[*e].owner == owner) {
+            Some(e) => e,
+            None => continue,
+        };
+        let ts = times(g, pe);
+        let calls: Vec<usize> = g.edges[ie].events.iter().map(|i| *i as usize).collect();
+        let pulls = evs(g, pe, Dir::Up, &[Kind::Pull]);
+        let data = evs(g, pe, Dir::Down, &[Kind::Data]);
+        bump(st, "c15.step");
+        // items in order
+        for (j, d) in data.iter().enumerate() {
+            if g.events[*d].val.a[0] != j as i64 {
+                let got: Vec<i64> = data.iter().map(|i| g.events[*i].val.a[0]).collect();
+                report(g, st, &["C15"], "items-out-of-order", &op, pe, *d as i32, format!("sink received {:?}", got));
+                break;
+            }
+        }
+        // no delivery begins while an earlier Data delivery to the same sink is in progress
+        for i in from..to {
+            let ev = &g.events[i];
+            if ev.edge as usize == pe
+                && ev.dir == Dir::Down
+                && matches!(ev.kind, Kind::Data | Kind::Terminate)
+                && ev.inflight > 0
+            {
+                let d = format!("{:?} delivery began while {} Data deliveries to the same sink were in progress", ev.kind, ev.inflight);
+                report(g, st, &["C15"], "reentrant-delivery", &op, pe, i as i32, d);
+            }
+        }
+        // the iterator is never advanced without a Pull
+        for (n, c) in calls.iter().enumerate() {
+            if *c < from {
+                continue;
+            }
+            let t = g.events[*c].t_in;
+            let pulls_before = pulls.iter().filter(|p| g.events[**p].t_in < t).count();
+            bump(st, "c15.next-call");
+            if n + 1 > pulls_before {
+                let d = format!("next() call #{} happened when the sink had sent only {} Pulls", n + 1, pulls_before);
+                report(g, st, &["C15"], "iterator-advanced-without-pull", &op, ie, *c as i32, d);
+            }
+            if t > ts.uterm_in {
+                report(g, st, &["C15"], "iterator-advanced-after-disposal", &op, ie, *c as i32, String::new());
+            }
+        }
+        // every item taken from the iterator is delivered (one per Pull): #Data == #items returned
+        let items = calls.iter().filter(|c| g.events[**c].val.n > 0).count();
+        if items != data.len() {
+            let d = format!("iterator returned {} items, sink received {} Data", items, data.len());
+            report(g, st, &["C15"], "item-lost-or-duplicated", &op, pe, -1, d);
+        }
+        // completion: exactly on the Pull that finds the iterator exhausted
+        let exhausted: Vec<usize> = calls.iter().copied().filter(|c| g.events[*c].val.n == 0).collect();
+        let term = ts.dterm_ev;
+        if let Some(x) = exhausted.first() {
+            bump(st, "c15.exhausted");
+            if exhausted.len() > 1 {
+                report(g, st, &["C15"], "iterator-advanced-after-exhaustion", &op, ie, exhausted[1] as i32, String::new());
+            }
+            let ok = term >= 0
+                && g.events[term as usize].kind == Kind::Terminate
+                && g.events[term as usize].t_in > g.events[*x].t_out
+                && attributed_probe_pull(g, term as usize).is_some()
+                && !evs(g, pe, Dir::Down, &[Kind::Data])
+                    .iter()
+                    .any(|d| g.events[*d].t_in > g.events[*x].t_out && g.events[*d].t_in < g.events[term as usize].t_in);
+            if !ok && ts.uterm_in > g.events[*x].t_in {
+                report(
+                    g,
+                    st,
+                    &["C15"],
+                    "completion-not-on-the-exhausting-pull",
+                    &op,
+                    pe,
+                    *x as i32,
+                    "the iterator reported exhaustion; the sink was not completed right then, inside a Pull".into(),
+                );
+            }
+        } else if term >= 0 && g.events[term as usize].kind == Kind::Terminate {
+            report(g, st, &["C15"], "completed-before-exhaustion", &op, pe, term, String::new());
         }
     }
 }
